@@ -193,6 +193,13 @@ pub struct Hyg { pub index: Tk<0>, pub len: B1, pub value: Tk<4>, pub other: Tk<
 shape!(Hyg, HygVec, HygSlice, HygSliceMut, HygRef, HygRefMut, HygPtr, HygPtrMut, drops=false,
     [(index leaf Tk<0>), (len leaf B1), (value leaf Tk<4>), (other leaf Tk<4>), (field leaf Pl), (val leaf Pl)]);
 
+// a nested shape without any drop glue (plain `Copy` data only): `needs_drop::<NPl>() == false` selects the code paths that
+// skip destructors, and they have their own nested-field arms
+soa_struct!(clone, pub struct InPl { pub x: Pl, pub y: Pc });
+shape!(InPl, InPlVec, InPlSlice, InPlSliceMut, InPlRef, InPlRefMut, InPlPtr, InPlPtrMut, drops=false, [(x leaf Pl), (y leaf Pc)]);
+soa_struct!(clone, pub struct NPl { pub a: Pl, #[nested_soa] pub n: InPl, pub c: Pc });
+shape!(NPl, NPlVec, NPlSlice, NPlSliceMut, NPlRef, NPlRefMut, NPlPtr, NPlPtrMut, drops=false, [(a leaf Pl), (n nested InPl), (c leaf Pc)]);
+
 // five more hygiene shapes whose field names are regenerated on every run from the locals the translator finds in /repo
 include!("hygdyn_gen.rs");
 
